@@ -1552,7 +1552,8 @@ Error X86RAPass::emit_swap(RAWorkReg* a_reg, uint32_t a_phys_id, RAWorkReg* b_re
 
 Error X86RAPass::emit_load(RAWorkReg* work_reg, uint32_t dst_phys_id) noexcept {
   Reg dst_reg(work_reg->signature(), dst_phys_id);
-  BaseMem src_mem(work_reg_as_mem(work_reg));
+  BaseMem src_mem;
+  ASMJIT_PROPAGATE(work_reg_as_mem(Out(src_mem), work_reg));
 
   const char* comment = nullptr;
 
@@ -1568,7 +1569,8 @@ Error X86RAPass::emit_load(RAWorkReg* work_reg, uint32_t dst_phys_id) noexcept {
 }
 
 Error X86RAPass::emit_save(RAWorkReg* work_reg, uint32_t src_phys_id) noexcept {
-  BaseMem dst_mem(work_reg_as_mem(work_reg));
+  BaseMem dst_mem;
+  ASMJIT_PROPAGATE(work_reg_as_mem(Out(dst_mem), work_reg));
   Reg src_reg(work_reg->signature(), src_phys_id);
 
   const char* comment = nullptr;
